@@ -316,7 +316,7 @@ def _native_stack(tier, seed):
                      "stack and allocatable set after every call, no register handed out twice, reserved registers never popped"}
 
 
-NATIVE = [("allocated-functions", N19.explore), ("register-stack-model", _native_stack)]
+NATIVE = [("allocated-functions", N19.explore), ("register-stack-model", _native_stack), ("reservation-nesting", N19.explore_reservations)]
 
 
 
@@ -531,6 +531,74 @@ class AllocateRegisters(Spec):
         return r["failures"][0] if r["failures"] else None
 
 
+class ReserveRegisters(Spec):
+    """
+    RegisterStack.reserve_registers(regs) (a @contextmanager): BALANCED - when the context is left, every register's reservation count is what it
+    was when the context was entered, for a concrete number of registers (loops unrolled; the registers may coincide).  reserve_register /
+    unreserve_register are executed (inlined real bodies).  The code run inside the context is modelled at the `yield`: it may pop and push
+    registers but leaves every reservation count as it found it (nested contexts are balanced by this same contract - a loop nest reserves
+    the same carried register twice, and leaving the inner loop must not drop the outer reservation).
+    """
+
+    prop, file, qualname = PROP, RS, "RegisterStack.reserve_registers"
+    bind_in_inlined = True  # reserve_register / unreserve_register are methods of the same stack: the pool lookups denote the same objects
+    modifies = ["list#len", "list#el", "dict#dom", "dict#val"]
+
+    def __init__(self):
+        self.p = Pool(None)
+        self.inline = {"self.reserve_register": Inline(RS, "RegisterStack.reserve_register"), "self.unreserve_register": Inline(RS, "RegisterStack.unreserve_register")}
+
+    @property
+    def globals(self):
+        spec = self
+
+        def getattr_(ex, st, base, attr):
+            if attr == "index" and base.cls == "RegisterType":
+                return VRef(base.z, "IndexAttr")
+            if attr == "data" and base.cls == "IndexAttr":
+                return VInt(REG_INDEX(base.z))
+            if attr == "register_name":
+                return VRef(z3.IntVal(1), "str")
+            return None
+
+        def at_yield(ex, st):
+            from pyvc.engine import Res
+
+            # the body of the `with` statement: arbitrary stack traffic, reservation counts left as found (TRUSTED: balanced nesting)
+            p = spec.p
+            old = st.snapshot()
+            st.havoc(["list#len", "list#el"])
+            st.assume(st.list_len(p.AV) >= 0)
+            return [Res("val", None, st)]
+
+        return {"__getattr__": getattr_, "__yield__": at_yield, "__isinstance__": lambda ex, st, v, cls: True, "__fstring__": lambda ex, st, parts: VRef(z3.IntVal(1), "str")}
+
+    def setup(self, st, inst):
+        n = inst["n"]
+        self.regs = [st.declare_input(f"reg{j}", z3.Int(f"reg{j}")) for j in range(n)]
+        return {"self": VRef(st.declare_input("self", z3.Int("self")), "RegisterStack"), "regs": VTuple([VRef(r, "RegisterType") for r in self.regs])}
+
+    def bind(self, st, a, inst):
+        return self.p.binds()
+
+    def pre(self, st, a):
+        self._entry = st.snapshot()
+        return self.p.inv(st) + [A("objects", z3.And(a["self"].z != 0, *[r != 0 for r in self.regs]))]
+
+    def post(self, old, st, a, res):
+        p = self.p
+        i = z3.Int("rr!i")
+        cnt = lambda s, k: z3.If(s.dict_has(p.RE, k), s.dict_val(p.RE, k), 0)
+        return [C("balanced: every reservation count is what it was when the context was entered", forall([i], cnt(st, i) == cnt(old, i)))]
+
+    def post_exc(self, old, st, a, exc):
+        return None
+
+    def native_search(self, inst, seed):
+        r = N19.explore_reservations("quick", seed)
+        return r["failures"][0] if r["failures"] else None
+
+
 def make_specs(tier):
     specs = []
     for m in ("push", "pop", "reserve_register", "unreserve_register", "include_register", "exclude_register"):
@@ -544,6 +612,9 @@ def make_specs(tier):
     ar = AllocateRegisters()
     ar.instances = [{"ins": i, "outs": o, "inouts": g} for o in range(0, 4) for i in range(0, 3) for g in range(0, 2)]
     specs.append(ar)
+    rr = ReserveRegisters()
+    rr.instances = [{"n": n} for n in range(0, 3)]
+    specs.append(rr)
     return specs
 
 
@@ -556,7 +627,8 @@ ASSUMPTIONS = [
     "lengths, symbolic otherwise), with allocate_value / free_value replaced by their discharged contracts and allocate_values_same_reg by a trusted model (never releases a register); "
     "ValueAllocator.allocate_values_same_reg (iteration and unpacking of a Python set), BlockNaiveAllocator.allocate_block, the overriding allocate_registers of loop / call ops and the x86 allocator are "
     "NOT under discharged contracts: the interference / pre-assignment / result-preservation clauses are decided by the bounded stand-in only (riscv, integer registers)",
-    "reserve_registers is a @contextmanager generator (outside the subset): bounded only",
+    "reserve_registers (a @contextmanager generator) is under contract for <= 2 registers with the code of the `with` body modelled at the `yield` as arbitrary stack traffic that "
+    "leaves the reservation counts as it found them (trusted: balanced nesting)",
 ]
 
 SPECS = make_specs(os.environ.get("VERIF_TIER", "quick"))
